@@ -14275,3 +14275,7 @@ mod tests {
         assert_eq!(expected, actual);
     }
 }
+
+#[cfg(kani)]
+#[path = "/verif/kani/arrow-cast/cast/mod.rs"]
+mod verif_kani;
